@@ -182,8 +182,9 @@ func (t *Trie[K, V]) LongestPrefix(query K) (K, error) {
 
 // StartsWith returns all the keys in the set that start with prefix.
 func (t *Trie[K, V]) StartsWith(prefix K) (Queuer[K], error) {
-	t.mu.RLock()
-	defer t.mu.RUnlock()
+	// The result queue is shared state and gets rewritten here: the write lock is needed.
+	t.mu.Lock()
+	defer t.mu.Unlock()
 
 	t.q.Clear()
 
@@ -205,8 +206,9 @@ func (t *Trie[K, V]) StartsWith(prefix K) (Queuer[K], error) {
 
 // Keys collects all the existing keys in the set.
 func (t *Trie[K, V]) Keys() (Queuer[K], error) {
-	t.mu.RLock()
-	defer t.mu.RUnlock()
+	// The result queue is shared state and gets rewritten here: the write lock is needed.
+	t.mu.Lock()
+	defer t.mu.Unlock()
 
 	t.q.Clear()
 
